@@ -31,6 +31,10 @@ def run(chk):
         km.centroids_ = np.array(cents)
         dist = np.asarray(km.transform(X))
         lab = np.asarray(km.predict(X))
+        if lab.shape != (N,) or dist.shape != (K, N):
+            chk.fail("for %d centroid(s) and %d sample(s) predict returns an array of shape %s and transform one of shape %s; one label per sample and one row per centroid, one column per sample are expected"
+                     % (K, N, lab.shape, dist.shape), {"centroids": hexlist(cents), "X": hexlist(X), "shape": [K, D], "N": N})
+            continue
         sc = max(1.0, float(np.abs(X - cents[0]).max())) ** 2
         dterms.append("{| kd_c := %s; kd_x := %s; kd_rtol := %s; kd_atol := %s; kd_d := %s; kd_lab := %s |}" % (
             cq.mat(cents), cq.mat(X), cq.fl(2.0 ** -40), cq.fl(1e-12 * sc), cq.mat(dist), cq.natlist(lab)))
@@ -51,7 +55,7 @@ def run(chk):
         # single sample
         j = r.randrange(N)
         d1 = np.asarray(km.transform(X[j]))
-        if not (d1.shape == (K, 1) and np.array_equal(d1[:, 0], dist[:, j]) and int(np.asarray(km.predict(X[j]))[0]) == int(lab[j])):
+        if not (d1.shape == (K, 1) and np.array_equal(d1[:, 0], dist[:, j]) and np.asarray(km.predict(X[j])).shape == (1,) and int(np.asarray(km.predict(X[j]))[0]) == int(lab[j])):
             chk.fail("single-sample transform/predict differs from the batch", dict(ctx, sample=j))
         # Dask row chunkings
         for parts in (gen.compositions(N) if N <= 5 else [gen.random_composition(r, N) for _ in range(2)]):
